@@ -31,20 +31,26 @@ Qed.
 Lemma pow128_pos : forall f, 0 < 128 ^ N.of_nat f.
 Proof. intros f. apply N.neq_0_lt_0. apply N.pow_nonzero. discriminate. Qed.
 
+Lemma uvarint_cons : forall f b r mult acc,
+  uvarint (S f) (b :: r) mult acc =
+  if b <? 128 then Some (acc + (b mod 128) * mult, r)
+  else uvarint f r (mult * 128) (acc + (b mod 128) * mult).
+Proof. reflexivity. Qed.
+
 Lemma uvarint_roundtrip : forall f n mult acc rest,
   n < 128 ^ N.of_nat (S f) ->
   uvarint (S f) (uvarint_enc f n ++ rest) mult acc = Some (acc + n * mult, rest).
 Proof.
   induction f as [|f IH]; intros n mult acc rest Hn.
   - change (128 ^ N.of_nat 1) with 128 in Hn. simpl uvarint_enc. simpl app.
-    unfold uvarint. rewrite N.mod_mod by discriminate.
+    rewrite uvarint_cons. rewrite N.mod_mod by discriminate.
     rewrite (N.mod_small n 128) by lia.
     assert (E : (n <? 128) = true) by (apply N.ltb_lt; lia). rewrite E. reflexivity.
   - simpl uvarint_enc. destruct (n <? 128) eqn:E.
-    + apply N.ltb_lt in E. simpl app. cbn [uvarint].
+    + apply N.ltb_lt in E. simpl app. rewrite uvarint_cons.
       rewrite (N.mod_small n 128) by lia.
       assert (E' : (n <? 128) = true) by (apply N.ltb_lt; lia). rewrite E'. reflexivity.
-    + apply N.ltb_ge in E. simpl app. cbn [uvarint].
+    + apply N.ltb_ge in E. simpl app. rewrite uvarint_cons.
       assert (Hm : (n mod 128 + 128) mod 128 = n mod 128).
       { replace (n mod 128 + 128) with (n mod 128 + 1 * 128) by lia.
         rewrite N.mod_add by discriminate. apply N.mod_mod. discriminate. }
@@ -78,7 +84,7 @@ Proof.
   - destruct f; [simpl in Hf; lia|]. reflexivity.
   - inversion HF as [|? ? Hc HF']; subst. unfold lit_chunk_ok in Hc.
     destruct f; [lia|].
-    simpl map. simpl concat. unfold sn_lit_elem at 1. simpl app.
+    cbn [map concat]. unfold sn_lit_elem at 1. cbn [app].
     cbn [sn_elems].
     set (l := N.of_nat (length c)).
     assert (Hl : 1 <= l <= 60) by (unfold l; lia).
@@ -94,7 +100,7 @@ Proof.
     rewrite firstn_app_exact, skipn_app_exact, Nat.eqb_refl.
     rewrite IH; auto.
     + rewrite rev_append_rev, rev_app_distr, <- app_assoc. reflexivity.
-    + simpl in Hf. rewrite app_length in Hf. simpl in Hf. rewrite app_length in Hf. lia.
+    + simpl in Hf. rewrite app_length in Hf. lia.
 Qed.
 
 (** decoding a stream made only of literal elements returns the input *)
@@ -125,8 +131,7 @@ Proof.
     simpl (1 - 1)%nat. simpl skipn. simpl firstn. simpl length. simpl.
     replace (len - 0)%nat with len by lia.
     rewrite IH by lia.
-    f_equal. change (b :: b :: out) with ([b] ++ b :: out).
-    rewrite app_assoc. f_equal. symmetry. apply (repeat_cons len b).
+    f_equal. cbn [repeat]. rewrite app_comm_cons, (repeat_cons len b), <- app_assoc. reflexivity.
 Qed.
 
 (** ---- LZ4 --------------------------------------------------------------- *)
